@@ -32,7 +32,9 @@ Variants(p) ==
 AllFiles == UNION {Variants(Paths[i]) : i \in 1..Len(Paths)}
 \* archive entries
 Rel == <<S("a.go"), S("A.GO"), S("d/b.go"), S("D/c.go"), S("a.go/x"), S("go.mod"), S("Go.Mod"), S("sub/go.mod"), S("LICENSE"), S("../evil"), S("d/../../evil"),
-         S("/abs"), S("d//e"), S("./f"), S("d/"), S("con"), <<-255>>, S("d\\e"), <<>>, S("vendor/p/x.go"), <<924>>, <<956>>, <<181, 47, 97>>, <<100, 1635, 46, 103, 111>>, <<118, 65298, 47, 100>>>>
+         S("/abs"), S("d//e"), S("./f"), S("d/"), S("con"), <<-255>>, S("d\\e"), <<>>, S("vendor/p/x.go"), <<924>>, <<956>>, <<181, 47, 97>>, <<100, 1635, 46, 103, 111>>, <<118, 65298, 47, 100>>,
+         \* a directory whose name is a string prefix, not an ancestor, of the directory before it
+         S("ab/x.go"), S("a/y.go")>>
 PrefixVariants == <<Prefix, S("example.com/M@v1.0.0/"), <<>>, S("example.com/m@v1.0.1/")>>
 Entry(n, sz) == [name |-> n, size |-> sz]
 EntryVariants == {Entry(Prefix \o Rel[i], "ok") : i \in 1..Len(Rel)}
